@@ -10,6 +10,7 @@ import Krp.Props.C14
 import Krp.Lemmas.HubFrame
 import Krp.Props.C02
 import Krp.Props.C07
+import Krp.Props.C06
 import Krp.Lemmas.Bank
 import Krp.Lemmas.Wiring
 namespace Krp
@@ -871,6 +872,533 @@ theorem C19_end_to_end_delivery (s s' : Sys) (sender : Addr) (w : Wired19 s)
         · cases pre <;> simp at hq
         · simpa [sentOf] using h2
 
+/-! ### The pools' side of the transaction
+
+  Before the dispatch message is handled only reward withdrawals, the dispatcher's swap, its
+  swap-contract calls and their payouts run (`Pre`): the hub and the stake are untouched.  The dispatch
+  emits at most one BondRewards; when it runs no Delegate is pending, so (no slash being unrecognised
+  at the start) its slashing check changes nothing, the stSei pool grows by the payment and Delegate
+  messages for exactly the payment are queued; each Delegate then moves its amount into the
+  delegated stake. -/
+
+def Pre : Msg → Bool
+  | .withdrawReward d _ => d == hubA
+  | .wasm s t (.disp (.swap _ _)) f => s == hubA && t == dispA && f.isEmpty
+  | .wasm s _ (.swapDenom _ _ _ none) _ => s == dispA
+  | .bankSend src dst _ _ => src == swapA && dst != hubA
+  | _ => false
+
+theorem pre_flow (m : Msg) (h : Pre m = true) : Flow m = true := by
+  cases m with
+  | wasm a b c f =>
+    cases c with
+    | disp dm => cases dm <;> simp_all [Pre, Flow]
+    | swapDenom x y z t => cases t <;> simp_all [Pre, Flow]
+    | _ => simp [Pre] at h
+  | bankSend a b c d => simp_all [Pre, Flow]
+  | withdrawReward a b => simp_all [Pre, Flow]
+  | _ => simp [Pre] at h
+
+def brCount : List Msg → Nat
+  | [] => 0
+  | m :: ms => (match m with | .wasm _ _ (.hub .bondRewards) _ => 1 | _ => 0) + brCount ms
+
+theorem brCount_append (x y : List Msg) : brCount (x ++ y) = brCount x + brCount y := by
+  induction x with
+  | nil => simp [brCount]
+  | cons m ms ih => simp only [List.cons_append, brCount, ih]; omega
+
+/-- one `Pre` message: emits `Pre` messages, leaves the hub and the stake alone -/
+theorem pre_step (s s' : Sys) (m : Msg) (subs : List Msg) (w : Wired19 s) (hp : Pre m = true)
+    (hx : s.handle m = .ok (s', subs)) :
+    (∀ x ∈ subs, Pre x = true) ∧ s'.hub = s.hub ∧ s'.chain.deleg = s.chain.deleg ∧
+      s'.chain.delegSet = s.chain.delegSet := by
+  have hf := pre_flow m hp
+  obtain ⟨hsub, _, _, _, _, _, hhub⟩ := flow_step s s' m subs w hf hx
+  have sent := handle_sentBy s s' m subs hx
+  have hh : s'.hub = s.hub := by
+    rcases hhub with ⟨h, _⟩ | ⟨_, _, _, heq, _⟩
+    · exact h
+    · subst heq; simp [Pre] at hp
+  cases m with
+  | withdrawReward who v =>
+    have hsubs : subs = [] := sent.2 (fun _ _ _ _ h => by cases h)
+    subst hsubs
+    refine ⟨(fun _ h => by cases h), hh, ?_, ?_⟩
+    all_goals
+      simp only [Sys.handle] at hx
+      exc_norm at hx
+      exc_split at hx
+      simp [List.foldl, Sys.setBank]
+  | bankSend src dst d amt =>
+    have hsubs : subs = [] := sent.2 (fun _ _ _ _ h => by cases h)
+    subst hsubs
+    refine ⟨(fun _ h => by cases h), hh, ?_, ?_⟩
+    all_goals
+      simp only [Sys.handle] at hx
+      exc_norm at hx
+      split at hx
+      · cases hx
+      · rename_i s1 h1
+        unfold Sys.bankMove at h1
+        exc_split at h1
+        cases hx
+        rfl
+  | wasm a b c f =>
+    have ch := handle_wasm_chain s s' a b c f subs hx
+    refine ⟨?_, hh, ch.1, ch.2⟩
+    cases c with
+    | disp dm =>
+      cases dm with
+      | swap x y =>
+        cases handle_touch s s' _ subs hx with
+        | disp s1 sender funds dm heq _ _ hx' _ _ _ _ _ =>
+          injection heq with _ _ e3 _
+          injection e3 with e3; subst e3
+          have shape := dispSwap_shape _ _ _ _ _ _ _ _ hx'
+          intro x hx''
+          obtain ⟨tg, dn, am, dd, fs, he⟩ := shape x hx''
+          subst he; rfl
+        | none _ hmm _ _ =>
+          rcases hmm with h0 | ⟨_, _, _, _, heq, ht⟩
+          · exact absurd rfl (h0 _ _ _ _)
+          · injection heq with _ e2 _ _
+            have hb : b = dispA := by simp [Pre] at hp; exact hp.1.2
+            rcases ht with ht | ht <;> (rw [← e2, hb] at ht; cases ht)
+        | hub _ _ _ _ heq _ _ _ _ _ _ _ _ _ => injection heq with _ _ e3 _; cases e3
+        | bsei _ _ _ _ heq _ _ _ _ _ _ _ => injection heq with _ _ e3 _; cases e3
+        | stsei _ _ _ _ heq _ _ _ _ _ _ => injection heq with _ _ e3 _; cases e3
+        | reward _ _ _ _ heq _ _ _ _ _ _ _ _ _ => injection heq with _ _ e3 _; cases e3
+        | reg _ _ _ _ heq _ _ _ _ _ _ _ _ _ => injection heq with _ _ e3 _; cases e3
+      | _ => simp [Pre] at hp
+    | swapDenom sd am dd tgt =>
+      cases handle_touch s s' _ subs hx with
+      | none _ _ _ hb =>
+        intro x hx''
+        obtain ⟨t, d, a', he⟩ := hb x hx''
+        have hfx := hsub x hx''
+        subst he
+        simp only [Flow, Bool.and_eq_true, Bool.or_eq_true] at hfx
+        simp only [Pre, Bool.and_eq_true]
+        exact ⟨by decide, hfx.2⟩
+      | hub _ _ _ _ heq _ _ _ _ _ _ _ _ _ => injection heq with _ _ e3 _; cases e3
+      | bsei _ _ _ _ heq _ _ _ _ _ _ _ => injection heq with _ _ e3 _; cases e3
+      | stsei _ _ _ _ heq _ _ _ _ _ _ => injection heq with _ _ e3 _; cases e3
+      | reward _ _ _ _ heq _ _ _ _ _ _ _ _ _ => injection heq with _ _ e3 _; cases e3
+      | disp _ _ _ _ heq _ _ _ _ _ _ _ _ => injection heq with _ _ e3 _; cases e3
+      | reg _ _ _ _ heq _ _ _ _ _ _ _ _ _ => injection heq with _ _ e3 _; cases e3
+    | _ => simp [Pre] at hp
+  | _ => simp [Pre] at hp
+
+theorem handle_delegate (s s' : Sys) (v : Addr) (amt : Nat) (subs : List Msg)
+    (hx : s.handle (.delegate hubA v amt) = .ok (s', subs)) :
+    amt ≠ 0 ∧ v ∈ valUniverse ∧ s'.hub = s.hub ∧
+      s'.chain.deleg = upd s.chain.deleg v (s.chain.deleg v + amt) ∧
+      s'.chain.delegSet = upd s.chain.delegSet v true := by
+  simp only [Sys.handle] at hx
+  exc_norm at hx
+  exc_split at hx
+  rename_i _ hz hin _
+  exact ⟨hz, by simpa using hin, rfl, rfl, rfl⟩
+
+theorem pre_counts (l : List Msg) (h : ∀ x ∈ l, Pre x = true) : delSum l = 0 ∧ brCount l = 0 := by
+  induction l with
+  | nil => exact ⟨rfl, rfl⟩
+  | cons m ms ih =>
+    have hm := h m (List.mem_cons_self ..)
+    have r := ih (fun x hx => h x (List.mem_cons_of_mem _ hx))
+    cases m with
+    | wasm a b c f =>
+      cases c with
+      | hub hm' => simp [Pre] at hm
+      | _ => simp [delSum, brCount, r.1, r.2]
+    | delegate a b c => simp [Pre] at hm
+    | _ => simp [delSum, brCount, r.1, r.2]
+
+theorem stake_counts (l : List Msg) (h : ∀ x ∈ l, isStake x = true) : brCount l = 0 ∧ ∀ x ∈ l, x ≠ dMsg := by
+  induction l with
+  | nil => exact ⟨rfl, fun _ h => by cases h⟩
+  | cons m ms ih =>
+    have hm := h m (List.mem_cons_self ..)
+    have r := ih (fun x hx => h x (List.mem_cons_of_mem _ hx))
+    refine ⟨?_, ?_⟩
+    · cases m <;> simp_all [isStake, brCount]
+    · intro x hx
+      rcases List.mem_cons.mp hx with rfl | hx
+      · intro he; rw [he] at hm; simp [isStake, dMsg] at hm
+      · exact r.2 x hx
+
+theorem post_ne_dMsg (l : List Msg) (h : ∀ x ∈ l, post x = true) : ∀ x ∈ l, x ≠ dMsg := by
+  intro x hx he
+  have := h x hx
+  rw [he] at this; simp [post, dMsg] at this
+
+theorem coinMsgs_counts (c : DispSt) (x : Nat) :
+    (∀ ms, coinMsgsB c dispA x = .ok ms → brCount ms = 0 ∧ delSum ms = 0) ∧
+    (∀ ms, coinMsgsSt c dispA x = .ok ms → brCount ms ≤ 1 ∧ delSum ms = 0) := by
+  constructor
+  · intro ms hx; unfold coinMsgsB at hx; exc_split at hx <;> simp [brCount, delSum]
+  · intro ms hx; unfold coinMsgsSt at hx; exc_split at hx <;> simp [brCount, delSum]
+
+/-- carried through the queue of the index update for the pools' clause -/
+structure PoolInv (s0 s : Sys) (q : List Msg) : Prop where
+  dl : DeliverInv s0 s q
+  chain : ChainOK s
+  bb : s.hub.bBond = s0.hub.bBond
+  pool : s.hub.sBond + totalDelegated s0 = s0.hub.sBond + totalDelegated s + delSum q
+  mono : totalDelegated s0 ≤ totalDelegated s
+  shape : (∃ pre, q = pre ++ [dMsg] ∧ ∀ x ∈ pre, Pre x = true) ∨
+    ((∀ x ∈ q, post x = true) ∧ brCount q ≤ 1 ∧ (0 < delSum q → brCount q = 0))
+
+theorem PoolInv.step (s0 s s' : Sys) (m : Msg) (rest subs : List Msg)
+    (hk : s0.disp.keeper ≠ dispA) (hrate : s0.disp.keeperRate ≤ D) (hden : s0.disp.stDenom ≠ s0.disp.bDenom)
+    (hns : s0.hub.bBond + s0.hub.sBond ≤ totalDelegated s0)
+    (inv : PoolInv s0 s (m :: rest)) (hx : s.handle m = .ok (s', subs)) : PoolInv s0 s' (subs ++ rest) := by
+  have dl' := DeliverInv.step s0 s s' m rest subs hk hrate hden inv.dl hx
+  have w := inv.dl.base.wired
+  have c := inv.chain
+  have hf : Flow m = true := inv.dl.base.flow m (List.mem_cons_self ..)
+  obtain ⟨hsub, _, _, _, _, hdisp, hhub⟩ := flow_step s s' m subs w hf hx
+  have dcons : delSum (m :: rest) = delSum [m] + delSum rest := by
+    have := delSum_append [m] rest; simpa using this
+  have bcons : brCount (m :: rest) = brCount [m] + brCount rest := by
+    have := brCount_append [m] rest; simpa using this
+  have hpool := inv.pool
+  rw [dcons] at hpool
+  -- when the hub and the stake are untouched and neither `m` nor what it emits delegates
+  have same : s'.hub = s.hub → s'.chain.deleg = s.chain.deleg → s'.chain.delegSet = s.chain.delegSet →
+      delSum [m] = 0 → delSum subs = 0 →
+      ChainOK s' ∧ s'.hub.bBond = s0.hub.bBond ∧
+        s'.hub.sBond + totalDelegated s0 = s0.hub.sBond + totalDelegated s' + delSum (subs ++ rest) ∧
+        totalDelegated s0 ≤ totalDelegated s' := by
+    intro hh hd hds h1 h2
+    have : totalDelegated s' = totalDelegated s := by unfold totalDelegated; rw [hd]
+    refine ⟨⟨fun v hv => by rw [hd]; exact c.outside v hv, fun v hv => by rw [hd]; rw [hds] at hv; exact c.unset v hv⟩,
+      by rw [hh]; exact inv.bb, ?_, by rw [this]; exact inv.mono⟩
+    rw [delSum_append, h2, hh]
+    rw [this]; omega
+  rcases inv.shape with ⟨pre, hq, hpre⟩ | ⟨hpost, hbr, hdel⟩
+  · cases pre with
+    | cons p pre' =>
+      simp only [List.cons_append] at hq
+      injection hq with e1 e2
+      subst e1
+      have hp : Pre m = true := hpre m (List.mem_cons_self ..)
+      obtain ⟨hsubp, hh, hd, hds⟩ := pre_step s s' m subs w hp hx
+      have c1 := pre_counts [m] (fun x hx' => by simp at hx'; subst hx'; exact hp)
+      have c2 := pre_counts subs hsubp
+      obtain ⟨k1, k2, k3, k4⟩ := same hh hd hds c1.1 c2.1
+      refine ⟨dl', k1, k2, k3, k4, Or.inl ⟨subs ++ pre', by rw [e2, List.append_assoc], ?_⟩⟩
+      intro x hx'
+      rcases List.mem_append.mp hx' with h | h
+      · exact hsubp x h
+      · exact hpre x (List.mem_cons_of_mem _ h)
+    | nil =>
+      simp only [List.nil_append] at hq
+      injection hq with e1 e2
+      subst e1; subst e2
+      simp only [dMsg] at hx
+      have ch := handle_wasm_chain s s' _ _ _ _ subs hx
+      cases handle_touch s s' _ subs hx with
+      | none _ hmm _ _ =>
+        rcases hmm with h0 | ⟨_, _, _, _, heq, ht⟩
+        · exact absurd rfl (h0 _ _ _ _)
+        · injection heq with _ e2 _ _
+          rcases ht with ht | ht <;> (rw [ht] at e2; cases e2)
+      | hub _ _ _ _ heq _ _ _ _ _ _ _ _ _ => injection heq with _ e2 _ _; cases e2
+      | bsei _ _ _ _ heq _ _ _ _ _ _ _ => injection heq with _ e2 _ _; cases e2
+      | stsei _ _ _ _ heq _ _ _ _ _ _ => injection heq with _ e2 _ _; cases e2
+      | reward _ _ _ _ heq _ _ _ _ _ _ _ _ _ => injection heq with _ e2 _ _; cases e2
+      | reg _ _ _ _ heq _ _ _ _ _ _ _ _ _ => injection heq with _ e2 _ _; cases e2
+      | disp s1 sender funds dm heq hmv' hch' hx' hh _ _ _ _ =>
+        injection heq with e1 _ e3 e4
+        injection e3 with e3
+        subst e1; subst e3; subst e4
+        have hc0 := inv.dl.cfg
+        have hms : ∃ m1 m2 b1 b2, coinMsgsB s.disp dispA b1 = .ok m1 ∧ coinMsgsSt s.disp dispA b2 = .ok m2 ∧
+            subs = m1 ++ m2 ++ [Msg.wasm dispA s.disp.rewardContract (.reward .updateGlobalIndex) []] := by
+          simp only [dispExec] at hx'; exc_norm at hx'
+          split at hx'
+          · cases hx'
+          · split at hx'
+            · cases hx'
+            · rename_i ms' hd
+              injection hx' with hx'; injection hx' with _ h2; subst h2
+              unfold dispatchMsgs at hd
+              split at hd
+              · cases hd
+              · rename_i m1 hm1
+                split at hd
+                · cases hd
+                · rename_i m2 hm2
+                  injection hd with hd
+                  exact ⟨m1, m2, _, _, hm1, hm2, hd.symm⟩
+        obtain ⟨m1, m2, b1, b2, hm1, hm2, hsubs⟩ := hms
+        have cp := coinMsgs_post s.disp
+        have cc := coinMsgs_counts s.disp
+        have p1 := (cp b1 w.dispHub (by rw [hc0]; exact hk) (by rw [w.dispRw]; decide)).1 m1 hm1
+        have p2 := (cp b2 w.dispHub (by rw [hc0]; exact hk) (by rw [w.dispRw]; decide)).2 m2 hm2
+        have n1 := (cc b1).1 m1 hm1
+        have n2 := (cc b2).2 m2 hm2
+        have dsub : delSum subs = 0 := by
+          rw [hsubs, delSum_append, delSum_append, n1.2, n2.2]; rfl
+        have bsub : brCount subs ≤ 1 := by
+          rw [hsubs, brCount_append, brCount_append, n1.1]; simp [brCount]; exact n2.1
+        obtain ⟨k1, k2, k3, k4⟩ := same hh ch.1 ch.2 rfl dsub
+        refine ⟨dl', k1, k2, k3, k4, Or.inr ⟨?_, by rw [List.append_nil]; exact bsub, by rw [List.append_nil, dsub]; intro h; cases h⟩⟩
+        rw [List.append_nil, hsubs]
+        intro x hx''
+        rcases List.mem_append.mp hx'' with h | h
+        · rcases List.mem_append.mp h with h | h
+          · exact p1 x h
+          · exact p2 x h
+        · simp at h; subst h; simp [post, w.dispRw]
+  · -- after the dispatch
+    have hm : post m = true := hpost m (List.mem_cons_self ..)
+    have hrestp : ∀ x ∈ rest, post x = true := fun x hx' => hpost x (List.mem_cons_of_mem _ hx')
+    rw [bcons] at hbr
+    rw [dcons, bcons] at hdel
+    have sent := handle_sentBy s s' m subs hx
+    -- the new queue is still past the dispatch
+    have postOf : (∀ x ∈ subs, x ≠ dMsg) → ∀ x ∈ subs ++ rest, post x = true := by
+      intro hne
+      rcases dl'.phase with ⟨pre, hq⟩ | ⟨h, _, _⟩
+      · exfalso
+        have : dMsg ∈ subs ++ rest := by rw [hq]; simp
+        rcases List.mem_append.mp this with h | h
+        · exact hne _ h rfl
+        · exact post_ne_dMsg rest hrestp _ h rfl
+      · exact h
+    cases m with
+    | bankSend src dst d amt =>
+      have hsubs : subs = [] := sent.2 (fun _ _ _ _ h => by cases h)
+      subst hsubs
+      have hh : s'.hub = s.hub := by
+        rcases hhub with ⟨h, _⟩ | ⟨_, _, _, heq, _⟩
+        · exact h
+        · cases heq
+      have hch : s'.chain.deleg = s.chain.deleg ∧ s'.chain.delegSet = s.chain.delegSet := by
+        simp only [Sys.handle] at hx
+        exc_norm at hx
+        split at hx
+        · cases hx
+        · rename_i s1 h1
+          unfold Sys.bankMove at h1
+          exc_split at h1
+          cases hx
+          exact ⟨rfl, rfl⟩
+      obtain ⟨k1, k2, k3, k4⟩ := same hh hch.1 hch.2 rfl rfl
+      refine ⟨dl', k1, k2, k3, k4, Or.inr ⟨postOf (fun _ h => by cases h), ?_, ?_⟩⟩
+      · simp only [List.nil_append]; simp only [brCount] at hbr; omega
+      · simp only [List.nil_append]; intro h; have := hdel (by simp only [delSum]; omega); simp only [brCount] at this; omega
+    | delegate who v amt =>
+      have hsubs : subs = [] := sent.2 (fun _ _ _ _ h => by cases h)
+      subst hsubs
+      have hw : who = hubA := by simpa [post] using hm
+      subst hw
+      have hh : s'.hub = s.hub := by
+        rcases hhub with ⟨h, _⟩ | ⟨_, _, _, heq, _⟩
+        · exact h
+        · cases heq
+      obtain ⟨hz, hv, _, hdg, hds⟩ := handle_delegate s s' v amt [] hx
+      have hs := sum_upd valUniverse s.chain.deleg v (s.chain.deleg v + amt) valUniverse_nodup
+      simp only [hv, if_true] at hs
+      have hamt : 0 < amt := Nat.pos_of_ne_zero hz
+      have hb0 : brCount rest = 0 := by
+        have := hdel (by simp only [delSum, if_true]; omega)
+        simp only [brCount] at this; omega
+      refine ⟨dl', ⟨fun w' hw' => ?_, fun w' hw' => ?_⟩, by rw [hh]; exact inv.bb, ?_, ?_, Or.inr ⟨postOf (fun _ h => by cases h), ?_, ?_⟩⟩
+      · have hne : w' ≠ v := fun h => hw' (h ▸ hv)
+        rw [hdg, upd_other _ _ _ _ hne]; exact c.outside w' hw'
+      · by_cases hwv : w' = v
+        · subst hwv; rw [hds, upd_same] at hw'; cases hw'
+        · rw [hds, upd_other _ _ _ _ hwv] at hw'
+          rw [hdg, upd_other _ _ _ _ hwv]; exact c.unset w' hw'
+      · rw [hh]
+        unfold totalDelegated at hpool ⊢
+        rw [hdg]
+        simp only [delSum, if_true, List.nil_append] at hpool ⊢
+        omega
+      · have := inv.mono
+        unfold totalDelegated at this ⊢
+        rw [hdg]
+        omega
+      · simp only [List.nil_append, hb0]; omega
+      · simp only [List.nil_append, hb0]; intro _; trivial
+    | wasm a b cl f =>
+      have ch := handle_wasm_chain s s' a b cl f subs hx
+      cases cl with
+      | hub hm' =>
+        cases hm' with
+        | bondRewards =>
+          have hab : a = dispA ∧ b = hubA := by simpa [post] using hm
+          obtain ⟨ha, hbb⟩ := hab
+          subst ha; subst hbb
+          -- it is the only BondRewards, and no Delegate is pending
+          have hb0 : brCount rest = 0 := by simp only [brCount] at hbr; omega
+          have hd0 : delSum rest = 0 := by
+            by_cases h : 0 < delSum rest
+            · have := hdel (by simp only [delSum]; omega); simp only [brCount] at this; omega
+            · omega
+          rcases hhub with ⟨_, hne⟩ | ⟨s1, sender2, funds2, heq2, hmv, hs1, hxx⟩
+          · exact absurd rfl (hne _ _)
+          · injection heq2 with e1 _ _ e4
+            subst e1; subst e4
+            have sk := moveFunds_staking dispA hubA f s s1 hmv
+            have c1 : ChainOK s1 := ⟨fun w' hw' => by rw [sk.1]; exact c.outside w' hw',
+              fun w' hw' => by rw [sk.1]; rw [sk.2] at hw'; exact c.unset w' hw'⟩
+            have hT : ((s1.hubEnv.delegations).map (·.2)).sum = totalDelegated s := by
+              rw [delegations_sum s1 c1]; unfold totalDelegated; rw [sk.1]
+            simp only [hubExec] at hxx; split at hxx
+            · cases hxx
+            · obtain ⟨p, st, _, _, hst, hd, hh'⟩ := HubSt.bondR_spec _ _ _ _ _ _ hxx
+              have hbooks : s.hub.bBond + s.hub.sBond ≤ totalDelegated s := by
+                have := inv.bb
+                simp only [delSum] at hpool
+                omega
+              obtain ⟨q1, q2, _⟩ := C06_no_slash_no_change s.hub st s1.hubEnv hst (by rw [hT]; exact hbooks)
+              obtain ⟨stk, dsum, _⟩ := delegs_stake s.hub s1.hubEnv p subs rfl hd
+              have sc := stake_counts subs stk
+              have hTD : totalDelegated s' = totalDelegated s := by unfold totalDelegated; rw [ch.1]
+              refine ⟨dl', ⟨fun w' hw' => by rw [ch.1]; exact c.outside w' hw',
+                fun w' hw' => by rw [ch.1]; rw [ch.2] at hw'; exact c.unset w' hw'⟩, ?_, ?_,
+                by rw [hTD]; exact inv.mono, Or.inr ⟨postOf sc.2, ?_, ?_⟩⟩
+              · rw [hh']; show st.bBond = _; rw [q1]; exact inv.bb
+              · rw [hh', delSum_append, dsum, hd0, hTD]
+                show st.sBond + p + _ = _
+                rw [q2]
+                simp only [delSum] at hpool
+                omega
+              · rw [brCount_append, sc.1, hb0]; omega
+              · intro _; rw [brCount_append, sc.1, hb0]
+        | _ => simp [post] at hm
+      | reward rm =>
+        cases rm with
+        | updateGlobalIndex =>
+          have hh : s'.hub = s.hub := by
+            rcases hhub with ⟨h, _⟩ | ⟨_, _, _, heq, _⟩
+            · exact h
+            · cases heq
+          have hab : (a = dispA ∧ b = rewardA) ∧ f = [] := by simpa [post] using hm
+          obtain ⟨⟨ha, hbb⟩, hff⟩ := hab
+          subst ha; subst hbb; subst hff
+          have hsubs : subs = [] := by
+            cases handle_touch s s' _ subs hx with
+            | reward s2 _ _ _ heq _ _ _ hx' _ _ _ _ _ =>
+              injection heq with _ _ e3 _
+              injection e3 with e3; subst e3
+              exact (C14_update_records_bank _ _ _ _ _ _ _ _ hx').1
+            | none _ hmm _ _ =>
+              rcases hmm with h0 | ⟨_, _, _, _, heq, ht⟩
+              · exact absurd rfl (h0 _ _ _ _)
+              · injection heq with _ e2 _ _
+                rcases ht with ht | ht <;> (rw [ht] at e2; cases e2)
+            | hub _ _ _ _ heq _ _ _ _ _ _ _ _ _ => injection heq with _ e2 _ _; cases e2
+            | bsei _ _ _ _ heq _ _ _ _ _ _ _ => injection heq with _ e2 _ _; cases e2
+            | stsei _ _ _ _ heq _ _ _ _ _ _ => injection heq with _ e2 _ _; cases e2
+            | disp _ _ _ _ heq _ _ _ _ _ _ _ _ => injection heq with _ e2 _ _; cases e2
+            | reg _ _ _ _ heq _ _ _ _ _ _ _ _ _ => injection heq with _ e2 _ _; cases e2
+          subst hsubs
+          obtain ⟨k1, k2, k3, k4⟩ := same hh ch.1 ch.2 rfl rfl
+          refine ⟨dl', k1, k2, k3, k4, Or.inr ⟨postOf (fun _ h => by cases h), ?_, ?_⟩⟩
+          · simp only [List.nil_append]; simp only [brCount] at hbr; omega
+          · simp only [List.nil_append]; intro h; have := hdel (by simp only [delSum]; omega); simp only [brCount] at this; omega
+        | _ => simp [post] at hm
+      | _ => simp [post] at hm
+    | _ => simp [post] at hm
+
+/-- **The whole UpdateGlobalIndex transaction, the pools.** If no slash is unrecognised when the
+    transaction starts (booked stake ≤ delegated stake) and it succeeds, then at the end the bSei pool
+    is exactly what it was and the stSei pool has grown by exactly the amount by which the hub's
+    delegated stake has grown: what was re-bonded was delegated in full and booked to stSei alone. -/
+theorem C19_end_to_end_pools (s s' : Sys) (sender : Addr) (w : Wired19 s) (c : ChainOK s)
+    (hk : s.disp.keeper ≠ dispA) (hrate : s.disp.keeperRate ≤ D) (hden : s.disp.stDenom ≠ s.disp.bDenom)
+    (hns : s.hub.bBond + s.hub.sBond ≤ totalDelegated s)
+    (hx : Sys.run 400 s [.wasm sender hubA (.hub .updateGlobalIndex) []] = .ok s') :
+    s'.hub.bBond = s.hub.bBond ∧
+    s'.hub.sBond + totalDelegated s = s.hub.sBond + totalDelegated s' ∧
+    totalDelegated s ≤ totalDelegated s' := by
+  simp only [Sys.run] at hx
+  split at hx
+  · cases hx
+  · rename_i s1 subs h1
+    cases handle_touch s s1 _ subs h1 with
+    | none _ hm' _ _ =>
+      rcases hm' with hm' | ⟨_, _, _, _, heq, ht⟩
+      · exact absurd rfl (hm' _ _ _ _)
+      · injection heq with _ e2 _ _
+        rcases ht with ht | ht <;> (rw [ht] at e2; cases e2)
+    | bsei _ _ _ _ heq _ _ _ _ _ _ _ => injection heq with _ e2 _ _; cases e2
+    | stsei _ _ _ _ heq _ _ _ _ _ _ => injection heq with _ e2 _ _; cases e2
+    | reward _ _ _ _ heq _ _ _ _ _ _ _ _ _ => injection heq with _ e2 _ _; cases e2
+    | disp _ _ _ _ heq _ _ _ _ _ _ _ _ => injection heq with _ e2 _ _; cases e2
+    | reg _ _ _ _ heq _ _ _ _ _ _ _ _ _ => injection heq with _ e2 _ _; cases e2
+    | hub s2 sender' funds hm heq h2 hmv hc hx' b t r d g =>
+      injection heq with e1 _ e3 e4
+      injection e3 with e3
+      subst e1; subst e3; subst e4
+      simp only [Sys.moveFunds] at hmv
+      injection hmv with hmv; subst hmv
+      have hp : s.hub.isPaused = false := by
+        simp only [hubExec] at hx'
+        split at hx'
+        · cases hx'
+        · rename_i h; simpa using h
+      simp only [hubExec, hp, Bool.false_eq_true, if_false] at hx'
+      obtain ⟨dsp, hdsp, _, hms, hh⟩ := C19_hub_update_global s.hub s1.hub s.hubEnv sender subs hx'
+      have hd : dsp = dispA := by rw [w.hubDisp] at hdsp; injection hdsp with h; exact h.symm
+      subst hd
+      have hflow : AllFlow subs := by
+        rw [hms]
+        intro x hx''
+        simp only [List.mem_append, List.mem_map, List.mem_cons, List.mem_nil_iff, or_false] at hx''
+        rcases hx'' with ⟨dd, _, rfl⟩ | rfl | rfl <;> rfl
+      have hdel0 : delSum subs = 0 := by
+        rw [hms]
+        refine (noStake_sums _ ?_).1
+        intro x hx''
+        simp only [List.mem_append, List.mem_map, List.mem_cons, List.mem_nil_iff, or_false] at hx''
+        rcases hx'' with ⟨dd, _, rfl⟩ | rfl | rfl <;> rfl
+      have base1 : UgiInv s s1 (subs ++ []) := by
+        rw [List.append_nil]
+        refine ⟨⟨by rw [hh]; exact w.hubDisp, by rw [d]; exact w.dispHub, by rw [d]; exact w.dispRw,
+          by rw [d]; exact w.keeper, by rw [hc.2.2]; exact w.wa⟩, hflow, b, t, g,
+          by rw [hh]; exact ⟨⟨rfl, rfl, rfl, rfl, rfl, rfl, rfl⟩, rfl⟩, by rw [hh], ?_⟩
+        rw [hc.2.2, hdel0]; rfl
+      have hsplit : subs = ((s.hubEnv.delegations.map fun d => Msg.withdrawReward hubA d.1) ++
+            [.wasm hubA dispA (.disp (.swap s.hub.bBond s.hub.sBond)) []]) ++ [dMsg] := by
+        rw [hms, List.append_assoc]; rfl
+      have dl1 : DeliverInv s s1 (subs ++ []) := by
+        refine ⟨base1, d, ?_, ?_⟩
+        · intro v hu hv
+          right
+          rw [List.append_nil, hms]
+          apply List.mem_append_left
+          simp only [List.mem_map]
+          refine ⟨(v, s.chain.deleg v), ?_, rfl⟩
+          show (v, s.chain.deleg v) ∈ s.delegationsOf hubA
+          unfold Sys.delegationsOf
+          simp only [if_true, List.mem_map, List.mem_filter]
+          exact ⟨v, ⟨hu, hv⟩, rfl⟩
+        · left
+          rw [List.append_nil]
+          exact ⟨_, hsplit⟩
+      have inv1 : PoolInv s s1 (subs ++ []) := by
+        refine ⟨dl1, ⟨fun v hv => by rw [hc.2.2]; exact c.outside v hv, fun v hv => by
+            rw [hc.2.2] at hv ⊢; exact c.unset v hv⟩, by rw [hh], ?_, ?_, Or.inl ⟨_, by rw [List.append_nil]; exact hsplit, ?_⟩⟩
+        · rw [List.append_nil, hdel0, hh]
+          have : totalDelegated s1 = totalDelegated s := by unfold totalDelegated; rw [hc.2.2]
+          rw [this]; rfl
+        · have : totalDelegated s1 = totalDelegated s := by unfold totalDelegated; rw [hc.2.2]
+          rw [this]
+        · intro x hx''
+          simp only [List.mem_append, List.mem_map, List.mem_cons, List.mem_nil_iff, or_false] at hx''
+          rcases hx'' with ⟨dd, _, rfl⟩ | rfl <;> rfl
+      have fin := run_inv2 (PoolInv s) (fun a m r a' sb => PoolInv.step s a a' m r sb hk hrate hden hns) 399 s1 _ s' inv1 hx
+      have hpool := fin.pool
+      simp only [delSum, Nat.add_zero] at hpool
+      exact ⟨fin.bb, hpool, fin.mono⟩
+
 /-! Non-vacuity: a wired state with 1000 staked and 500 of pending rewards; the whole update
     succeeds (withdrawal, swap check, dispatch: 25 to the keeper, 475 re-bonded and delegated). -/
 def rewardsPending : Sys :=
@@ -887,5 +1415,20 @@ example : ∃ s', Sys.run 400 rewardsPending [.wasm 3 hubA (.hub .updateGlobalIn
 example : rewardsPending.disp.keeper ≠ dispA ∧ rewardsPending.disp.keeperRate ≤ D ∧
     rewardsPending.disp.stDenom ≠ rewardsPending.disp.bDenom ∧ (201 : Addr) ∈ valUniverse ∧
     rewardsPending.chain.delegSet 201 = true ∧ rewardsPending.chain.pending 201 0 = 500 := by decide
+
+/-- the premises of `C19_end_to_end_pools` hold in that state too, and the update re-bonds 475 there:
+    the stSei pool and the delegated stake both go from 1000 to 1475 -/
+example : ChainOK rewardsPending := by
+  have hd : genesisSys.chain.deleg = fun _ => 0 := rfl
+  have hs : genesisSys.chain.delegSet = fun _ => false := rfl
+  refine ⟨fun v hv => ?_, fun v hv => ?_⟩
+  · have : v ≠ 201 := fun h => hv (h ▸ by decide)
+    simp [rewardsPending, upd, this, hd]
+  · by_cases h : v = 201
+    · subst h; simp [rewardsPending, upd] at hv
+    · simp [rewardsPending, upd, h, hd]
+example : rewardsPending.hub.bBond + rewardsPending.hub.sBond ≤ totalDelegated rewardsPending := by decide
+example : ∃ s', Sys.run 400 rewardsPending [.wasm 3 hubA (.hub .updateGlobalIndex) []] = .ok s' ∧
+    s'.hub.sBond = 1475 ∧ totalDelegated s' = 1475 ∧ s'.chain.bank dispA 0 = 0 := ⟨_, rfl, by decide, by decide, by decide⟩
 
 end Krp
